@@ -2325,6 +2325,14 @@ func (c *compiler) VisitAssignStmt(s *ast.AssignStmt) ast.VisitResult {
 		index = c.floatOrByteAsInt(index, indexTyp)
 		c.cbb.NewCall(c.ddpstring.replaceCharIrFun, lhs, rhs, index)
 	} else {
+		// a non-temporary rhs may be (a part of) the old value of lhs, e.g. 'Speichere a in a.',
+		// so it has to be copied before the old value is freed
+		if !isTempRhs && !rhsTyp.IsPrimitive() {
+			dest := c.NewAlloca(rhsTyp.IrType())
+			rhs, _ = c.scp.addTemporary(c.deepCopyInto(dest, rhs, rhsTyp), rhsTyp)
+			isTempRhs = true
+		}
+
 		c.freeNonPrimitive(lhs, lhsTyp) // free the old value in the variable/list
 
 		// implicit cast to any if required
